@@ -29,6 +29,7 @@ FUNCS = [
     ("distributed_shampoo/utils/shampoo_hsdp_distributor.py", "HSDPDistributor._merge_and_block_gradients"),
     ("distributed_shampoo/utils/shampoo_hsdp_distributor.py", "HSDPDistributor.update_params"),
     ("distributed_shampoo/utils/shampoo_hsdp_distributor.py", "HSDPDistributor.merge_and_block_gradients"),
+    ("distributed_shampoo/utils/shampoo_hsdp_distributor.py", "HSDPDistributor.__init__"),
     ("distributed_shampoo/utils/shampoo_fsdp_utils.py", "compile_fsdp_parameter_metadata"),
 ]
 TRUSTED = [
@@ -43,7 +44,7 @@ EXPLANATION = "FSDP/HSDP blocking = default blocking of the recovered pieces wit
 
 def cases(tier):
     cs = [f"blocking/{c}/{lay}" for c in ("fsdp", "hsdp") for lay in ("L0", "L1", "L2")]
-    cs += ["metadata", "ribare/hsdp"] + D.update_params_cases("hsdp")
+    cs += ["metadata", "ribare/hsdp", "ctor/hsdp"] + D.update_params_cases("hsdp")
     return cs
 
 
@@ -274,6 +275,8 @@ def run_case(case, tier, seed):
         return _metadata_case(case)
     if case.startswith("ribare/"):
         return D.run_ri_bare(case, "hsdp")
+    if case.startswith("ctor/"):
+        return _hsdp_ctor_case(case)
     return D.run_update_params(case)
 
 
@@ -402,3 +405,101 @@ def replay_file(doc):
     if rp.get("kind") == "ddp_native":
         return False, "HSDP update obligations replay only on simulated ranks with a 2-D mesh (not available in the replayer)"
     return False, "no native replayer"
+
+
+# ---------------------------------------------------------------------------------------------------------
+# real HSDP constructor without a process group: torch.distributed and the device mesh are stubs
+
+
+def _hsdp_ctor_case(case):
+    """The real HSDPDistributor.__init__ for every rank of a (replicate x shard) device mesh: the sequence of device-mesh
+    (process-group) creations is the same on every rank; the communication group of a rank is its row of the 2-D sub-mesh of its
+    replicate column; a rank selects / allocates state for exactly the blocks whose owner equals its rank within that group."""
+    import torch
+    from distributed_shampoo import shampoo_types as st
+    from distributed_shampoo.utils import shampoo_hsdp_distributor as mod
+    from torch.distributed.fsdp import ShardingStrategy
+    C = mod.HSDPDistributor
+    func = "HSDPDistributor.__init__"
+    out = []
+    for nrep, nshard, ntr in ((2, 2, -1), (4, 2, 2), (4, 1, 2), (6, 2, 3), (3, 2, 1), (4, 2, 4)):
+        mesh_t = torch.arange(nrep * nshard).view(nrep, nshard)
+        traces, info = {}, {}
+        for rank in range(nrep * nshard):
+            log = []
+            col = rank % nshard
+
+            class MeshObj:
+                def __init__(self, mesh, names):
+                    self.mesh_tuple = mesh
+
+                def get_group(self, name):
+                    # "shard" dim of the 2-D sub-mesh: the row containing this rank
+                    rows = [r for r in self.mesh_tuple if rank in r]
+                    return ("group", tuple(rows[0]) if rows else None)
+
+            class HMesh:
+                device_type = "cpu"
+                mesh = mesh_t
+
+                @staticmethod
+                def size(d):
+                    return mesh_t.shape[d]
+
+                @staticmethod
+                def get_local_rank(d):
+                    return (rank // nshard) if d == 0 else (rank % nshard)
+
+            def gdm(device_type, mesh, mesh_dim_names=None):
+                log.append(tuple(tuple(r) for r in mesh))
+                return MeshObj(tuple(tuple(r) for r in mesh), mesh_dim_names)
+
+            class Dist:
+                ProcessGroup = object
+
+                @staticmethod
+                def is_initialized():
+                    return True
+
+                @staticmethod
+                def get_rank(group=None):
+                    if group is None:
+                        return rank
+                    return list(group[1]).index(rank)
+
+            shapes = [(4, 2), (6,), (3, 2)]
+            params, meta = [], {}
+            for j, s in enumerate(shapes):
+                n = 1
+                for x in s:
+                    n *= x
+                p = torch.nn.Parameter(torch.zeros(n))
+                params.append(p)
+                meta[p] = st.FSDPParameterMetadata(fqn=f"p{j}", shape=torch.Size(s), numel=n, start_idx=0, end_idx=n, sharding_strategy=ShardingStrategy.HYBRID_SHARD)
+            cfg = st.HSDPShampooConfig(param_to_metadata=meta, device_mesh=HMesh(), num_trainers_per_group=ntr, communication_dtype=st.CommunicationDType.FP32)
+            try:
+                with rebind([(mod, "dist", Dist), (mod, "get_device_mesh", gdm)]):
+                    D = C({st.PARAMS: params, st.MAX_PRECONDITIONER_DIM: 2, st.USE_MERGE_DIMS: False}, cfg)
+            except BaseException as e:  # noqa
+                info[rank] = f"{type(e).__name__}: {e}"
+                traces[rank] = tuple(log)
+                continue
+            traces[rank] = tuple(log)
+            gsize = D._dist_group_size
+            col_ranks = [int(x) for x in mesh_t[:, col]]
+            pos = col_ranks.index(rank) % gsize
+            seg = D._global_dist_buffer.numel() // gsize
+            own = [b.storage_offset() * b.element_size() // max(seg, 1) for b in D._global_dist_blocked_buffers]
+            ok = tuple(D._distributor_selector) == tuple(o == pos for o in own) and all(bi.group_source_rank == pos for bi in D._local_block_info_list) \
+                and len(D._local_block_info_list) == sum(o == pos for o in own) and D._comms_dist_group[1] is not None and rank in D._comms_dist_group[1] \
+                and len(D._comms_dist_group[1]) == gsize and set(D._comms_dist_group[1]) <= set(col_ranks)
+            info[rank] = (ok, own)
+        errs = [v for v in info.values() if isinstance(v, str)]
+        same_trace = len(set(traces.values())) == 1
+        same_own = len({tuple(v[1]) for v in info.values() if not isinstance(v, str)}) <= 1
+        ok = not errs and same_trace and same_own and all(v[0] for v in info.values() if not isinstance(v, str))
+        txt = errs[0][:200] if errs else (f"mesh {nrep}x{nshard}, num_trainers_per_group {ntr}: mesh creations equal on all ranks: {same_trace}; assignment equal: {same_own}; "
+                                           f"selection/state exactly for the blocks owned by the rank's position in its communication group: {all(v[0] for v in info.values() if not isinstance(v, str))}")
+        out.append(result(f"{func}/collective-trace-rank-independent;selection-for-owned-blocks[{case}/{nrep}x{nshard}/t{ntr}]", func, "discharged" if ok else "violated",
+                          backend="concrete-execution of the real constructor (torch.distributed / DeviceMesh stubbed), all ranks", case=case, text=txt, replay=dict(kind="fsdp_native")))
+    return out
